@@ -166,10 +166,17 @@ def run_scenario(sc, chooser, eager=('writer',), max_steps=6000, probe=True):
                     do_listener(S, ad, log, kind, item, ('free', l))
             S.spawn('free%d' % l, 'free', body)
         r.status = S.run(chooser, max_steps=max_steps, eager=eager)
-        mgr = srv._subscription_mgr
+        # end state of the library's per-item bookkeeping, read through the private attribute names of the current
+        # source; when a refactoring renamed them the end-state comparison is skipped (final_available False), not failed
         r.final = {}
-        for item, m in list(mgr._active_items.items()):
-            r.final[item] = (len(m._tasks_deq), m._code, m._isrunning, m._queued, m._last_subscribe_outcome)
+        r.final_available = True
+        try:
+            mgr = srv._subscription_mgr
+            for item, m in list(mgr._active_items.items()):
+                r.final[item] = (len(m._tasks_deq), m._code, m._isrunning, m._queued, m._last_subscribe_outcome)
+        except AttributeError:
+            r.final = {}
+            r.final_available = False
         r.queue_log = list(env.queues[0].log) if env.queues else []
         r.sent = list(env.sock.sent)
         r.pending_chunks = len(env.sock.chunks)
@@ -319,6 +326,8 @@ def puts_by_step(r):
 
 
 def impl_summary(r, item):
+    if not getattr(r, 'final_available', True):
+        return sym('unavailable')
     f = r.final.get(item)
     if f is None:
         return sym('none')
@@ -371,7 +380,7 @@ def compare_prepared(ctx, preps):
                     break
             if bad:
                 dis.append({'relation': 'lines enqueued per step', 'detail': bad, 'prep': pz})
-            elif pz['status'] == 'quiescent' and out[2][0] != d['final']:
+            elif pz['status'] == 'quiescent' and d['final'] != b'unavailable' and out[2][0] != d['final']:
                 dis.append({'relation': 'final per-item state', 'detail': 'item %s: model %s, implementation %s' % (
                     item, sx.dumps(out[2][0]), sx.dumps(d['final'])), 'prep': pz})
     return dis
@@ -704,16 +713,17 @@ def oracle_c19(r, F):
     last = {}
     for rid, meth, item in F.reqs:
         last[item] = (rid, meth)
+    avail = getattr(r, 'final_available', True)     # False: the bookkeeping attributes were renamed; judge on behaviour only
     for item, (rid, meth) in last.items():
         st = r.final.get(item)
         if meth == 'USB':
-            if st is not None:
+            if avail and st is not None:
                 out.append(('item %s: last request was an unsubscription but bookkeeping is retained %r' % (item, st), {'kind': 'retained'}))
             if r.probe.get(item):
                 out.append(('item %s: events after unsubscription are forwarded %r' % (item, r.probe[item]), {'kind': 'not_dropped_after_usb'}))
         else:
             ok_sub = any(c.name == 'subscribe' and not isinstance(c.outcome, tuple) and c.e is not None for c in F.calls_of.get(rid, []))
-            if ok_sub:
+            if ok_sub and avail:
                 if st is None or st[1] != rid:
                     out.append(('item %s: last request %s was a successful subscription but the live id is %r' % (item, rid, None if st is None else st[1]), {'kind': 'wrong_live'}))
     extra = set(r.final) - set(last)
